@@ -2,6 +2,7 @@ package rules
 
 import (
 	"fmt"
+	"go/token"
 	"go/types"
 	"sort"
 	"strings"
@@ -338,9 +339,65 @@ func (fp *freshParams) fresh1(fn *ssa.Function, i int, depth int) bool {
 		if pi := core.ParamIndex(rootOf(core.Strip(a))); pi >= 0 && fp.fresh(cs.Parent(), pi, depth+1) {
 			continue
 		}
+		// the object is kept in a field of a per-call state struct (an unexported type whose every instance is fresh
+		// and whose field only ever receives fresh objects): inf := &state{ts: newThing()}; inf.ts.Mutate()
+		if u, ok := core.Strip(a).(*ssa.UnOp); ok && u.Op == token.MUL {
+			if fa, ok := u.X.(*ssa.FieldAddr); ok {
+				holderFresh := false
+				if pi := core.ParamIndex(rootOf(fa.X)); pi >= 0 && rootOf(fa.X) == fa.X {
+					holderFresh = fp.fresh(cs.Parent(), pi, depth+1)
+				} else if _, isAlloc := fa.X.(*ssa.Alloc); isAlloc {
+					holderFresh = true
+				}
+				if holderFresh && fp.freshField(fa, depth+1) {
+					continue
+				}
+			}
+		}
 		return false
 	}
 	return n > 0
+}
+
+// freshField: every store (anywhere in the module) into this field of this unexported struct type stores a fresh
+// object: an allocation or constructor result of the storing activation, or a parameter that is itself always fresh.
+func (fp *freshParams) freshField(fa *ssa.FieldAddr, depth int) bool {
+	nt := namedOfType(fa.X.Type())
+	if nt == nil || nt.Obj().Exported() || depth > 6 {
+		return false
+	}
+	key := fmt.Sprintf("field/%p/%d", nt.Obj(), fa.Field)
+	if v, ok := fp.memo[key]; ok {
+		return v
+	}
+	fp.memo[key] = true
+	res, n := true, 0
+	for _, g := range fp.p.ModFns {
+		core.Instrs(g, func(in ssa.Instruction) {
+			st, ok := in.(*ssa.Store)
+			if !ok {
+				return
+			}
+			f2, ok := st.Addr.(*ssa.FieldAddr)
+			if !ok || f2.Field != fa.Field {
+				return
+			}
+			if n2 := namedOfType(f2.X.Type()); n2 == nil || n2.Obj() != nt.Obj() {
+				return
+			}
+			n++
+			if freshArg(st.Val, st) {
+				return
+			}
+			if pi := core.ParamIndex(rootOf(core.Strip(st.Val))); pi >= 0 && fp.fresh(g, pi, depth+1) {
+				return
+			}
+			res = false
+		})
+	}
+	res = res && n > 0
+	fp.memo[key] = res
+	return res
 }
 
 var ifaceMethodCache map[string][]*types.Interface
@@ -522,13 +579,45 @@ func readonlyEntries(p *core.Program) map[string][]*ssa.Function {
 	return out
 }
 
-var storeWriteMethods = map[string]bool{
-	"(*storage/memstore.Store).Put":        true,
-	"(*linking/cid.Memory).OpenWrite":      true,
-	"(*linking/cid.Memory).OpenWrite$1":    true,
-	"(*storage/fsstore.Store).Put":         true,
-	"(*storage/fsstore.Store).PutStream":   true,
-	"(*storage/fsstore.Store).PutStream$1": true,
+// storeWriteFuncs: the write API of the bundled stores - the exported write methods, the functions they are built
+// from (closures, unexported helpers) and whatever function values they hand out as committers (a function literal, or
+// a method value of a small state type). These are out of the read-only scope; a load reaches them only through CHA's
+// signature matching of committer values.
+var storeWriteCache map[*ssa.Function]bool
+
+func storeWriteFuncs(p *core.Program) map[*ssa.Function]bool {
+	if storeWriteCache != nil {
+		return storeWriteCache
+	}
+	out := map[*ssa.Function]bool{}
+	var add func(fn *ssa.Function, depth int)
+	add = func(fn *ssa.Function, depth int) {
+		if fn == nil || out[fn] || depth > 3 || len(fn.Blocks) == 0 {
+			return
+		}
+		out[fn] = true
+		for _, a := range fn.AnonFuncs {
+			add(a, depth+1)
+		}
+		for _, ret := range core.Returns(fn) {
+			for i := range ret.Results {
+				if _, isSig := ret.Results[i].Type().Underlying().(*types.Signature); !isSig {
+					continue
+				}
+				for _, v := range core.ResultValues(ret, i) {
+					add(resolveFuncValue(v), depth+1)
+				}
+			}
+		}
+	}
+	for _, spec := range []struct{ rel, recv, name string }{
+		{"storage/memstore", "*Store", "Put"}, {"linking/cid", "*Memory", "OpenWrite"},
+		{"storage/fsstore", "*Store", "Put"}, {"storage/fsstore", "*Store", "PutStream"},
+	} {
+		add(p.Func(spec.rel, spec.recv, spec.name), 0)
+	}
+	storeWriteCache = out
+	return out
 }
 
 // chaReach: functions of library packages reachable from the entries in the CHA graph.
@@ -545,7 +634,7 @@ func chaReach(p *core.Program, cg *callgraph.Graph, entries []*ssa.Function) map
 		if _, ok := pred[f]; ok {
 			return
 		}
-		if from != nil && storeWriteMethods[core.FuncKey(f)] {
+		if from != nil && storeWriteFuncs(p)[f] {
 			return // write API of a bundled store: out of the read-only scope (reached only through CHA's signature matching of committer closures)
 		}
 		pred[f] = from
